@@ -155,7 +155,19 @@ func (c14) Gen(r *rand.Rand, tier string, idx int) *core.Plan {
 			p.Faults = append(p.Faults, rt.Fault{Task: nw + r.IntN(nr), Op: "read", Nth: r.IntN(4), Kind: "shortread", Arg: int64(r.IntN(1001))})
 		}
 	}
-	p.Tape = core.Tape(r, 400, core.Pick(r, 0.1, 0.3, 0.6))
+	if r.IntN(4) == 0 {
+		// PCT with depth d in 1..3: random priorities, d-1 change points
+		n := nw + nr + 1
+		for _, x := range r.Perm(n) {
+			p.Prio = append(p.Prio, 10+x)
+		}
+		for i, d := 0, r.IntN(3); i < d; i++ {
+			p.Change = append(p.Change, 1+r.IntN(60))
+		}
+		p.World["pct"] = int64(len(p.Change) + 1)
+	} else {
+		p.Tape = core.Tape(r, 400, core.Pick(r, 0.1, 0.3, 0.6))
+	}
 	return p
 }
 
